@@ -85,7 +85,8 @@ Mismatch(s, e) ==
         support == { r \in 1..s.vec.nr : s.vec.src[r] # 0 }
     IN IF o.exc # "" THEN (IF s.pc = "raised" /\ s.exc = o.exc THEN ""
                           ELSE IF s.pc = "raised" THEN "exception-class" ELSE "unexpected-exception")
-       ELSE IF s.pc # "done" THEN "expected-exception"
+       ELSE IF s.pc # "done" THEN (IF s.exc = "solver-contract" THEN "solver-return(count/selection/order)"
+                                  ELSE "expected-exception")
        ELSE IF o.nvals # Len(s.vals) THEN "number-of-values"
        ELSE IF o.nr # s.vec.nr \/ o.nc # nc THEN "shape-of-modes"
        ELSE IF ~(\A j \in 1..Len(o.nzrows) : o.nzrows[j] \in support) THEN "zero-pattern"
